@@ -527,7 +527,7 @@ def run(tier, seed, replay=None):
         phase_t[0] = now
     rep.lean = lean_obligations(PROP, thorough=thorough)
     phase("lean_obligations")
-    n_cases = 800 if not thorough else 4500
+    n_cases = 600 if not thorough else 4500
     n_png = 80 if not thorough else 3000           # rasterised; artists are built for all
     maxd = 10 if not thorough else 26
     rng = random.Random(seed)
